@@ -27,6 +27,21 @@ func (r *readable) ReadableLen() int { return r.n }
 
 type plainRW struct{ bytes.Buffer }
 
+// fullTransport is a wrapped object that happens to have the whole TTransport method set itself
+// (e.g. a connection type) and also exposes ReadableLen.
+type fullTransport struct {
+	bytes.Buffer
+	readable int
+	own      uint64
+}
+
+func (f *fullTransport) ReadableLen() int              { return f.readable }
+func (f *fullTransport) RemainingBytes() uint64        { return f.own }
+func (f *fullTransport) Flush(_ context.Context) error { return nil }
+func (f *fullTransport) Open() error                   { return nil }
+func (f *fullTransport) IsOpen() bool                  { return true }
+func (f *fullTransport) Close() error                  { return nil }
+
 // scripted reports a scripted sequence of readable lengths (a connection buffer that another
 // goroutine drains between two looks); after the script it keeps returning the last value.
 type scripted struct {
@@ -183,11 +198,75 @@ func monC19(c *drv.Ctx) {
 		}
 	})
 
+	// (1b) two buffer transports alive at the same time, closed and re-created in between: each stays
+	// bound to its own buffer
+	c.Stage("overlapping-transports", c.Pick(3000, 100000), false, func(cs *drv.Case) {
+		r := cs.R
+		bufs := []*bytes.Buffer{{}, {}, {}}
+		models := []*bytes.Buffer{{}, {}, {}}
+		trs := make([]apache.TTransport, 3)
+		for k := range trs {
+			trs[k] = apache.NewBufferTransport(bufs[k])
+		}
+		hist := ""
+		for i := 0; i < 4+r.Intn(20); i++ {
+			k := r.Intn(3)
+			switch r.Intn(5) {
+			case 0, 1:
+				p := []byte(fmt.Sprintf("t%d-%d;", k, i))
+				trs[k].Write(p)
+				models[k].Write(p)
+				hist += fmt.Sprintf("W%d ", k)
+			case 2:
+				trs[k].Close()
+				models[k].Reset()
+				hist += fmt.Sprintf("C%d ", k)
+				if r.Intn(2) == 0 {
+					trs[k].Close() // closing twice is harmless
+					hist += fmt.Sprintf("C%d ", k)
+				}
+			case 3:
+				// a new transport over another buffer is created while the others stay in use
+				j := (k + 1) % 3
+				trs[j] = apache.NewBufferTransport(bufs[j])
+				hist += fmt.Sprintf("N%d ", j)
+			default:
+				p1, p2 := make([]byte, 5), make([]byte, 5)
+				n1, _ := trs[k].Read(p1)
+				n2, _ := models[k].Read(p2)
+				hist += fmt.Sprintf("R%d ", k)
+				if n1 != n2 || !bytes.Equal(p1[:n1], p2[:n2]) {
+					cs.Fail("buffer-transport-diverges", M{"stage": "overlapping"}, M{"history": hist, "message": "Read through a transport returned other bytes than its own buffer holds"})
+					return
+				}
+			}
+			for q := range bufs {
+				if !bytes.Equal(bufs[q].Bytes(), models[q].Bytes()) || trs[q].RemainingBytes() != uint64(models[q].Len()) {
+					cs.Fail("buffer-transport-diverges", M{"stage": "overlapping"}, M{"history": hist, "transport": q, "buffer": bufs[q].String(), "model": models[q].String(), "remaining": trs[q].RemainingBytes(), "message": "a transport is no longer (only) its own buffer"})
+					return
+				}
+			}
+		}
+		cs.Desc = M{"history": hist}
+		cs.Count(true, hist)
+		cs.C.Obs("buffer histories", 1)
+	})
+
 	// (2) generic transport: RemainingBytes
 	vals := []int{math.MinInt, math.MinInt + 1, -1 << 40, -65536, -3, -2, -1, 0, 1, 2, 255, 65536, 1 << 40, math.MaxInt - 1, math.MaxInt}
 	c.Stage("generic-remaining-bytes", int64(len(vals))+2, true, func(cs *drv.Case) {
 		if int(cs.Idx) < len(vals) {
 			v := vals[cs.Idx]
+			// the same through an object that itself looks like a transport: the wrapped object's
+			// readable length decides, not a RemainingBytes method it may happen to have
+			ft := apache.NewDefaultTransport(&fullTransport{readable: v, own: 12345})
+			wantFT := ^uint64(0)
+			if v > 0 {
+				wantFT = uint64(v)
+			}
+			if got := ft.RemainingBytes(); got != wantFT {
+				cs.Fail("generic-remaining-bytes", M{"positive": v > 0, "wrapped": "transport-shaped"}, M{"readable_len": v, "got": got, "want": wantFT})
+			}
 			tr := apache.NewDefaultTransport(&readable{n: v})
 			want := ^uint64(0)
 			if v > 0 {
@@ -216,6 +295,13 @@ func monC19(c *drv.Ctx) {
 			tr := apache.NewDefaultTransport(b)
 			if tr.RemainingBytes() != 3 {
 				cs.Fail("default-transport-of-buffer", nil, M{"remaining": tr.RemainingBytes()})
+			}
+			// a buffer transport handed to NewDefaultTransport again is a generic object without a
+			// readable length: unknown
+			if again := apache.NewDefaultTransport(apache.NewBufferTransport(&bytes.Buffer{})); again.RemainingBytes() != ^uint64(0) {
+				if _, isSame := again.(interface{ Truncate(int) }); !isSame {
+					cs.Fail("generic-remaining-bytes", M{"wrapped": "buffer-transport"}, M{"got": again.RemainingBytes()})
+				}
 			}
 			b.WriteString("12")
 			if tr.RemainingBytes() != 5 {
@@ -269,8 +355,16 @@ func monC19(c *drv.Ctx) {
 			start := make(chan struct{})
 			wg.Add(3)
 			go func() { defer wg.Done(); <-start; apache.RegisterCheckTStruct(func(interface{}) error { return nil }) }()
-			go func() { defer wg.Done(); <-start; apache.RegisterThriftRead(func(bufiox.Reader, interface{}) error { return nil }) }()
-			go func() { defer wg.Done(); <-start; apache.RegisterThriftWrite(func(bufiox.Writer, interface{}) error { return nil }) }()
+			go func() {
+				defer wg.Done()
+				<-start
+				apache.RegisterThriftRead(func(bufiox.Reader, interface{}) error { return nil })
+			}()
+			go func() {
+				defer wg.Done()
+				<-start
+				apache.RegisterThriftWrite(func(bufiox.Writer, interface{}) error { return nil })
+			}()
 			close(start)
 			wg.Wait()
 			e1, e2, e3 := apache.CheckTStruct(1), apache.ThriftRead(rd, 1), apache.ThriftWrite(wr, 1)
